@@ -82,4 +82,15 @@ def metrics(a):
         out['tsd_' + weights] = _one(lambda: float(tree_sampling_divergence(_adj(n, a['edges']), D, weights=weights)))
         out['utsd_' + weights] = _one(lambda: float(tree_sampling_divergence(_adj(n, a['edges']), D, weights=weights,
                                                                             normalized=False)))
+    # the same calls, in another order, on ONE float64 CSR object: a score computed after another one on the same matrix must be
+    # what a fresh matrix gives (a function that rescales its working copy in place makes only the later calls wrong)
+    A = _adj(n, a['edges'])
+    seq = {}
+    seq['tsd_degree'] = _one(lambda: float(tree_sampling_divergence(A, D, weights='degree')))
+    seq['cost_degree'] = _one(lambda: float(dasgupta_cost(A, D, weights='degree')))
+    seq['utsd_uniform'] = _one(lambda: float(tree_sampling_divergence(A, D, weights='uniform', normalized=False)))
+    seq['cost_uniform'] = _one(lambda: float(dasgupta_cost(A, D, weights='uniform')))
+    seq['score_degree'] = _one(lambda: float(dasgupta_score(A, D, weights='degree')))
+    seq['tsd_uniform'] = _one(lambda: float(tree_sampling_divergence(A, D, weights='uniform')))
+    out['same_object'] = seq
     return out
